@@ -13,6 +13,8 @@ from vf import harness as H
 from vf import monitors as M
 from vf.corpus import sample_sources
 from vf import gen_texts as G
+from vf import relink as RL
+from vf import model as MD
 
 PROP = "C09"
 LEVEL = "exploration"
@@ -113,6 +115,7 @@ class RangeMonitor:
     def __init__(self, res, ws, describe):
         self.res, self.ws, self.describe = res, ws, describe
         self.disk_cache = {}
+        self.dirty = set()  # uris edited through didChange and not saved since
 
     def lines(self, srv, uri):
         path = H.path_from_uri(uri)
@@ -149,6 +152,7 @@ class RangeMonitor:
                     self.res.count("ranges_without_uri")
                     continue
                 ls, src = self.lines(srv, uri)
+                stale = uri in self.dirty and uri != req_uri
                 if ls is None:
                     self.res.violation(f"range:target-document-missing:{origin}", f"range addresses {uri} which does not exist",
                                        self.describe(msg, rg, jpath))
@@ -156,7 +160,11 @@ class RangeMonitor:
                 why = M.check_range(rg, ls)
                 if why:
                     kind = why.split(" ")[0].split(".")[-1].rstrip(":")
-                    self.res.violation(f"range:{origin}:{kind}", f"{why} in {jpath} ({src} of {os.path.basename(uri)}, {len(ls)} lines)",
+                    key = f"range:{origin}:{kind}"
+                    if stale:
+                        # the other files keep their links into the previous syntax tree of a file that is being edited until it is saved
+                        key = "range:link-into-file-edited-and-not-yet-saved"
+                    self.res.violation(key, f"{why} in {jpath} ({src} of {os.path.basename(uri)}, {len(ls)} lines)",
                                        self.describe(msg, rg, jpath))
 
 
@@ -238,6 +246,10 @@ def run_case(ctx, i, rng):
             res.sample({"class": "table-sweep", "names": [n for _, n in chunk[:6]], "forms": ["y = NAME(x)", "call NAME(x)", "NAME", "y = x%NAME"]}, limit=1)
         return res
 
+    if i >= n_table_cases + len(samples) and i % 5 == 0:
+        return relink_case(ctx, i, rng, res)
+    if i >= n_table_cases + len(samples) and i % 5 == 1:
+        return generated_case(ctx, i, rng, res)
     # documents inside the sample workspace
     files = dict(sample_workspace_files())
     files.pop("", None)
@@ -299,6 +311,94 @@ def run_case(ctx, i, rng):
     return res
 
 
+def relink_case(ctx, i, rng, res):
+    """consumers of a provider module are swept after the provider was rewritten (re-saved, edited in a buffer or deleted): their untouched
+    syntax trees are re-linked against objects of another shape (fewer dummies, moved passed-object dummy, entities of another kind)"""
+    quick = ctx.tier == "quick"
+    files, dep, variants = RL.gen(rng, nvariants=2 if quick else 4)
+    consumers = [f for f in files if f != dep]
+    with H.Workspace(files) as ws:
+        srv = H.Server(["--incremental_sync"] + (["--enable_code_actions"] if rng.random() < 0.8 else []), nthreads=rng.choice([1, 4]))
+        docinfo = {"kind": "relink", "files": dict(files), "history": []}
+        mon = RangeMonitor(res, ws, lambda msg, rg, jp: dict(docinfo, history=list(docinfo["history"]), request=msg, range=rg, path=jp))
+        srv.monitors.append(mon)
+        ctx.mark({"kind": "relink"})
+        srv.initialize(ws.root)
+        for f in consumers:
+            if rng.random() < 0.7:
+                srv.did_open(ws.uri(f))
+                docinfo["history"].append(["open", f])
+        if rng.random() < 0.7:
+            # populate link objects and per-object caches with the first version
+            for f in consumers:
+                sweep(res, srv, ws, f, positions_for(files[f].split("\n"), rng, 12), dict(docinfo, doc=f))
+        res.kind("doc:relink")
+        opened = False
+        for v in variants:
+            how = rng.choice(["save", "save", "change", "delete"])
+            uri = ws.uri(dep)
+            if how == "save" or (how == "delete" and not os.path.exists(ws.path(dep))):
+                if opened:
+                    # an open document is saved with the content of its buffer
+                    srv.did_change(uri, [{"text": v}])
+                    docinfo["history"].append(["change", dep, v])
+                ws.write(dep, v)
+                srv.did_save(uri)
+                mon.dirty.discard(uri)
+                how = "save"
+            elif how == "change":
+                if not opened:
+                    srv.did_open(uri)
+                    opened = True
+                srv.did_change(uri, [{"text": v}])
+                mon.dirty.add(uri)
+            else:
+                os.remove(ws.path(dep))
+                srv.did_close(uri)
+                mon.dirty.discard(uri)
+                opened = False
+            docinfo["history"].append([how, dep, v if how != "delete" else None])
+            res.kind("relink:" + how)
+            for f in consumers:
+                lines = srv.lines_of(ws.path(f)) or files[f].split("\n")
+                sweep(res, srv, ws, f, positions_for(lines, rng, 40 if quick else 400), dict(docinfo, doc=f, history=list(docinfo["history"])))
+            for q in ("", "a"):
+                srv.request("workspace/symbol", {"query": q})
+            for f in consumers:
+                srv.diagnostics(ws.uri(f))
+        if i % 50 == 0:
+            res.sample({"class": "relink", "history": [h[:2] for h in docinfo["history"]], "variant_head": variants[0][:300]}, limit=1)
+    return res
+
+
+def generated_case(ctx, i, rng, res):
+    """a generated multi-file program (vf.model), every file swept"""
+    quick = ctx.tier == "quick"
+    w = MD.gen_workspace(rng, style=MD.Style(rng) if rng.random() < 0.5 else None, tight=rng.random() < 0.3)
+    files = dict(w.files)
+    if rng.random() < 0.4:
+        f = rng.choice(sorted(files))
+        for _ in range(rng.randint(1, 3)):
+            files[f] = G.mutate(rng, files[f])
+    with H.Workspace(files) as ws:
+        srv = H.Server(["--incremental_sync"] + (["--enable_code_actions"] if rng.random() < 0.8 else []), nthreads=2)
+        docinfo = {"kind": "generated", "files": files}
+        mon = RangeMonitor(res, ws, lambda msg, rg, jp: dict(docinfo, request=msg, range=rg, path=jp))
+        srv.monitors.append(mon)
+        ctx.mark({"kind": "generated"})
+        srv.initialize(ws.root)
+        res.kind("doc:generated")
+        for f in sorted(files):
+            srv.did_open(ws.uri(f))
+            lines = srv.lines_of(ws.path(f))
+            if lines is None:
+                continue
+            sweep(res, srv, ws, f, positions_for(lines, rng, 25 if quick else 300), dict(docinfo, doc=f))
+            srv.request("textDocument/documentSymbol", {"textDocument": {"uri": ws.uri(f)}})
+            srv.diagnostics(ws.uri(f))
+    return res
+
+
 def on_stuck(i, why, tail, mark):
     return {"key": "hang:positional-request", "what": f"case {i} did not terminate ({why}); {tail[-500:]}", "witness": mark, "case": i}
 
@@ -314,6 +414,22 @@ def replay(ctx, w):
         srv = H.Server(["--incremental_sync", "--enable_code_actions"], nthreads=4)
         srv.monitors.append(RangeMonitor(res, ws, lambda msg, rg, jp: {"request": msg, "range": rg}))
         srv.initialize(ws.root)
+        for h in w.get("history") or []:
+            u = ws.uri(h[1])
+            if h[0] == "open":
+                srv.did_open(u)
+            elif h[0] == "save":
+                ws.write(h[1], h[2])
+                srv.did_save(u)
+                srv.monitors[0].dirty.discard(u)
+            elif h[0] == "change":
+                srv.did_open(u)
+                srv.did_change(u, [{"text": h[2]}])
+                srv.monitors[0].dirty.add(u)
+            elif h[0] == "delete":
+                if os.path.exists(ws.path(h[1])):
+                    os.remove(ws.path(h[1]))
+                srv.did_close(u)
         p = json.loads(json.dumps(w.get("params") or (w.get("request") or {}).get("params")))
         rel = w.get("doc") or "tbl.f90"
         # the uri of the original scratch directory is gone: re-root it
@@ -327,7 +443,7 @@ def replay(ctx, w):
         method = w.get("method") or (w.get("request") or {}).get("method")
         r = srv.request(method, p)
         if r[0] == "err":
-            res.violation("replayed", f"{method} {p} -> error {r[2]} {r[3]}", w)
+            res.violation(f"{method.split('/')[-1]}:{exc_key(r)}", f"{method} {p} -> error {r[2]} {r[3]}", w)
         elif M.shape_ok(method, r[2]):
-            res.violation("replayed", f"{method} -> {M.shape_ok(method, r[2])}", w)
+            res.violation(f"{method.split('/')[-1]}:shape", f"{method} -> {M.shape_ok(method, r[2])}", w)
     return res
